@@ -487,7 +487,7 @@ func writeEvidence(rd *runData, prop, tier string, seed int, sel, discharged, kn
 		for _, d := range u.degraded {
 			notes = append(notes, u.rootKey+": "+d)
 		}
-		if u.fc == nil || !u.fc.Flags["arith"] {
+		if u.fc != nil && u.fc.Flags["no_arith"] {
 			mathArith = append(mathArith, u.rootKey)
 		}
 	}
@@ -525,7 +525,11 @@ func writeEvidence(rd *runData, prop, tier string, seed int, sel, discharged, kn
 		violNames = append(violNames, ob.Name)
 	}
 	assumptions := assumptionsFor(prop)
-	assumptions = append(assumptions, "machine integers treated as mathematical integers (no overflow obligations) in: "+strings.Join(mathArith, ", "))
+	if len(mathArith) > 0 {
+		assumptions = append(assumptions, "signed machine integers are checked for overflow (arith.no_overflow) in every function under contract except these, where a 64-bit counter incremented by one per call/attempt is treated as mathematical (2^63 increments are out of scope): "+strings.Join(mathArith, ", "))
+	} else {
+		assumptions = append(assumptions, "signed machine integers are checked for overflow (arith.no_overflow) in every function under contract used by this check")
+	}
 	assumptions = append(assumptions, "unsigned 64-bit counters (store revisions, disconnect generations) are mathematical everywhere: a wrap-around after 2^64 increments is out of scope")
 	if len(au) > 0 {
 		assumptions = append(assumptions, "assumed (not verified) contracts of interfaces and library functions used by the functions under contract: "+strings.Join(au, ", "))
